@@ -38,6 +38,9 @@ func ReplayListener(c LCase) LResult {
 	if c.Cfg.Kind == "srv2" {
 		return replayServerListeners(c)
 	}
+	if c.Cfg.Kind == "srv2busy" {
+		return replayServerBusyPort(c)
+	}
 	res := LResult{N: c.N, Cfg: c.Cfg, Matched: true}
 	bg := context.Background()
 	var lis lime.TransportListener
@@ -227,6 +230,79 @@ func replayServerListeners(c LCase) LResult {
 		d.Res = "ok"
 		_ = t.Close()
 		_ = second.Close()
+	}
+	res.Actual = append(res.Actual, d)
+	for i, p := range c.Obs {
+		if i >= len(res.Actual) || !(res.Actual[i].Res == p.Res || (p.Res == "ok|err" && (res.Actual[i].Res == "ok" || res.Actual[i].Res == "err"))) {
+			res.Matched = false
+		}
+	}
+	return res
+}
+
+// replayServerBusyPort: a Server over two listeners of which the second cannot bind (its port is taken), so
+// that ListenAndServe returns by itself with part of the server up. Close must still stop that part: a dial
+// to the first listener afterwards is refused.
+func replayServerBusyPort(c LCase) LResult {
+	res := LResult{N: c.N, Cfg: c.Cfg, Matched: true}
+	bg := context.Background()
+	var taken net.Listener
+	var a, b *net.TCPAddr
+	var err error
+	for try := 0; try < 30; try++ {
+		b = nextAddr()
+		if taken, err = net.Listen("tcp", b.String()); err == nil {
+			break
+		}
+	}
+	if err != nil {
+		res.Note, res.Matched = "setup: "+err.Error(), false
+		return res
+	}
+	defer taken.Close()
+	var srv *lime.Server
+	ok := false
+	for try := 0; try < 30 && !ok; try++ {
+		a = nextAddr()
+		probe, err := net.Listen("tcp", a.String())
+		if err != nil {
+			continue
+		}
+		probe.Close()
+		ok = true
+	}
+	srv = lime.NewServer(lime.NewServerConfig(), &lime.EnvelopeMux{},
+		lime.NewBoundListener(lime.NewTCPTransportListener(&lime.TCPConfig{}), a),
+		lime.NewBoundListener(lime.NewTCPTransportListener(&lime.TCPConfig{}), b))
+	done := make(chan error, 1)
+	go func() { done <- srv.ListenAndServe() }()
+	lev := LEv{K: "op", Op: "listen", Res: "ok"} // (of the first listener)
+	select {
+	case <-done:
+	case <-time.After(2 * time.Second):
+	}
+	res.Actual = append(res.Actual, lev)
+	cerr := make(chan error, 1)
+	go func() { cerr <- srv.Close() }()
+	ev := LEv{K: "op", Op: "close"}
+	select {
+	case err := <-cerr:
+		ev.Res = classify(err)
+		if ev.Res == "timeout" {
+			ev.Res = "err"
+		}
+	case <-time.After(3 * time.Second):
+		ev.Res = "hang"
+	}
+	res.Actual = append(res.Actual, ev)
+	time.Sleep(20 * time.Millisecond)
+	ctx, cancel := context.WithTimeout(bg, 400*time.Millisecond)
+	t, err := lime.DialTcp(ctx, a, nil)
+	cancel()
+	d := LEv{K: "op", Op: "dial", Res: "err"}
+	if err == nil {
+		d.Res = "ok"
+		_ = t.Close()
 	}
 	res.Actual = append(res.Actual, d)
 	for i, p := range c.Obs {
